@@ -243,6 +243,12 @@ func strippedChain(v ssa.Value, isOrigin func(ssa.Value) bool, through map[strin
 // strippedChain3 is strippedChain for a value in frame fr consumed by `use`, with a
 // three-valued answer for "every origin satisfies isOrigin".
 func strippedChain3(v ssa.Value, fr *fw.Frame, use ssa.Instruction, isOrigin func(ssa.Value) bool, through map[string][]int) (keys map[string]bool, nonConst int, passed map[string]bool, ok fw.Tri) {
+	return strippedChain3Fam(v, fr, use, isOrigin, through, nil)
+}
+
+// strippedChain3Fam: family lists the functions whose stores to a struct field stand for a load
+// of that field (object state carried between the methods of an unexported helper type).
+func strippedChain3Fam(v ssa.Value, fr *fw.Frame, use ssa.Instruction, isOrigin func(ssa.Value) bool, through map[string][]int, family []*ssa.Function) (keys map[string]bool, nonConst int, passed map[string]bool, ok fw.Tri) {
 	keys = map[string]bool{}
 	passed = map[string]bool{}
 	thr := map[string][]int{"github.com/tidwall/sjson.DeleteBytes": {0}}
@@ -254,6 +260,7 @@ func strippedChain3(v ssa.Value, fr *fw.Frame, use ssa.Instruction, isOrigin fun
 		Through:  fw.ThroughNames(thr),
 		All:      true,
 		Use:      use,
+		Family:   family,
 		Visit: func(call ssa.CallInstruction, fr *fw.Frame) {
 			n := fw.CalleeName(call)
 			passed[n] = true
